@@ -164,6 +164,20 @@ def closed_events(ctx):
                         ctx.case(('closed', fn.__name__, d, str(a)))
                     except Exception as ex:
                         ctx.violation('C18:exception:%s' % fn.__name__, type(ex).__name__ + ': ' + str(ex)[:160], dict(d=d, alpha=str(a)))
+            # both sides of the threshold, 2^-10 .. 2^-50 away from it
+            for fn in fns:
+                try:
+                    ref = float(np.asarray(fn(d, float(thr + Fraction(1, 100)))).reshape(-1)[0])
+                    for e in (10, 20, 26, 30, 34, 40, 44, 50):
+                        for k in (-3, -1, 1, 3):
+                            al = float(thr) + k * 2.0 ** (-e)
+                            v = float(np.asarray(fn(d, al)).reshape(-1)[0])
+                            va = v if fn.__name__.endswith('_ree') else float(np.asarray(fn(d, np.array([al, float(thr) / 2]))).reshape(-1)[0])     # the batched path (REE is documented for a float only)
+                            ev.append(dict(op='closed_near', family=fam, fn=fn.__name__, d=d, k=k, e=e, finite=bool(np.isfinite(v) and np.isfinite(va)), zero=bool(v == 0.0 and va == 0.0),
+                                           nonneg=bool(v >= -1e-12), below=bool(v <= ref + 1e-12), value=repr(v)))
+                            ctx.case(('closed_near', fn.__name__, d, k, e))
+                except Exception as ex:
+                    ctx.violation('C18:exception:%s' % fn.__name__, type(ex).__name__ + ': ' + str(ex)[:160], dict(d=d, near_threshold=True))
     return ev
 
 
@@ -222,6 +236,9 @@ def run(ctx):
         e = ev[gi]
         if e['op'] == 'upb':
             ctx.violation('C18:load_upb:orthonormal-product:%s' % e['kind'], 'UPB is not an orthonormal set of product vectors / complement rank differs from D-|UPB|', dict(kind=e['kind']))
+        elif e['op'] == 'closed_near':
+            ctx.violation('C18:%s:near-threshold' % e['fn'], '%s(d=%d, alpha=threshold%+d/2^%d) = %s: not finite / not exactly zero on the separable side / negative or above the value at threshold+1/100 on the entangled side'
+                          % (e['fn'], e['d'], e['k'], e['e'], e['value']), e)
         else:
             ctx.violation('C18:%s:separable-range' % e['fn'], '%s(d=%d, alpha=%d/%d): not exactly zero on the separable range / not positive outside / not finite' % (e['fn'], e['d'], e['num'], e['den']), e)
     st = [s for s in states if s['cfg']['kind'] == 'dm' and s['cfg']['c']['f'] == 'Werner'][2]
